@@ -84,6 +84,8 @@ def eval (fn : String) (args : List String) (impl : String) : Option Verdict := 
          ["C20 a configuration the specification rejects was accepted at start-up (" ++ impl ++ ")"] else []) ++
       (if !implAccepted && acceptable d then
          ["C20 a valid configuration was refused at start-up (" ++ impl ++ ")"] else []) ++
+      (if (impl.splitOn "drv=crash").length > 1 then
+         ["C20 start-up crashed instead of returning an error (" ++ impl ++ ")"] else []) ++
       (if impl.startsWith "read=ok" && !(impl.endsWith "vals=same") then
          ["C20 an accepted value does not appear unchanged in the running configuration (" ++ impl ++ ")"] else [])
     pure { model := model, propFails := fails }
